@@ -178,7 +178,7 @@ def gen_ops(rng, init, n, alphabet, interior_removal=True):
         elif kind == "get":
             op.update(pt=pt[:rng.randint(1, depth)], allocate=rng.random() < 0.6)
         elif kind == "setroot":
-            op.update(shape=rng.choice(["empty", "empty-first-child", "full", "full"]))
+            op.update(shape=rng.choice(["empty", "empty-first-child", "full", "full", "own-root", "own-root-edited"]))
         elif kind == "insertlookup":
             op.update(c=rng.randint(0, 7), v=rng.choice([None, None, 3]), then=rng.choice([None, "insert", "ref"]), c2=rng.randint(0, 4))
         elif kind == "stale":
@@ -211,9 +211,10 @@ def gen_ops(rng, init, n, alphabet, interior_removal=True):
             # maps that move every coordinate, and maps that move one coordinate past its neighbours and leave the rest alone
             op.update(fn=rng.choice(["shift", "double", "reverse", "neg", "move-one", "move-one", "swap-two", "reverse-bad-shape", "to-tuple"]),
                       depth=rng.randint(0, max(0, depth - 1)),
-                      k=rng.randrange(8), to=rng.choice([-1, 1, 2, 3]))
+                      k=rng.randrange(8), to=rng.choice([-1, 1, 2, 3]), by_rankid=rng.random() < 0.3)
         elif kind == "updatePayloads":
-            op.update(fn=rng.choice(["inc", "box-inc", "zero", "same", "elem-op"]), depth=rng.randint(0, max(0, depth - 1)))
+            op.update(fn=rng.choice(["inc", "box-inc", "zero", "same", "elem-op"]), depth=rng.randint(0, max(0, depth - 1)),
+                      by_rankid=rng.random() < 0.3)
         elif kind == "coiter_read":
             op.update(opr=rng.choice(["|", "^", "&", "-", "==", "+", "uncompress"]),
                       path2=[rng.randrange(8) for _ in range(len(path))])
@@ -226,6 +227,18 @@ def gen_ops(rng, init, n, alphabet, interior_removal=True):
 # ------------------------------------------------------------------------------------------
 class Rejected(Exception):
     pass
+
+
+def _target_rankid(ctx, f, lvl, dd):
+    """Id of the rank `dd` levels below the fiber `f` (itself at level `lvl` of a tensor's tree), when the tree has
+    distinct, known rank ids: `updateCoords` / `updatePayloads` accept it in place of the depth."""
+    if ctx.tensor is None:
+        return None
+    ids = ctx.tensor.getRankIds()
+    if lvl + dd >= len(ids) or len(set(map(str, ids))) != len(ids):
+        return None
+    rid = ids[lvl + dd]
+    return rid if isinstance(rid, str) else None
 
 
 class StopHistory(Exception):
@@ -381,6 +394,19 @@ def apply_op(ctx, op):
         # re-rooting a populated tensor: by an empty fiber (a reset), by a tree whose first sub-fiber is empty, by a full tree
         if ctx.tensor is None or any(isinstance(i, list) for i in ctx.tensor.getRankIds()):
             return "skip"
+        if op["shape"] in ("own-root", "own-root-edited"):
+            # the tensor is handed its own root again (the idiom for rebuilding the rank lists after editing the tree by hand):
+            # whether setRoot() adopts the fiber or a copy of it, every rank must list exactly the fibers of the tree it ends up with
+            own = ctx.tensor.getRoot()
+            if op["shape"] == "own-root-edited" and depth > 1 and own.coords and isinstance(own.payloads[-1], Fiber):
+                # ... after a raw edit: a new unowned sub-tree appended behind the last element
+                sp = ctx.subspec(op["seed"], 1)
+                if sp:
+                    own.append(own.coords[-1] + 1, gen.fiber_from_spec(sp, d))
+            ctx.tensor.setRoot(own)
+            ctx.root = ctx.tensor.getRoot()
+            ctx.held = []
+            return
         if op["shape"] == "empty":
             new = Fiber()
         else:
@@ -603,7 +629,12 @@ def apply_op(ctx, op):
             H.quiescent("updateCoords:spread", ctx)
             f.updateCoords(mv, depth=dd)
             return
-        f.updateCoords(fns[fn], depth=dd)
+        rid = _target_rankid(ctx, f, lvl, dd) if op.get("by_rankid") else None
+        if rid is not None:
+            # the same update addressed by the id of the target rank instead of its depth below `f`
+            f.updateCoords(fns[fn], rankid=rid)
+        else:
+            f.updateCoords(fns[fn], depth=dd)
         return
     if kind == "updatePayloads":
         dd = min(op["depth"], depth - 1 - lvl)
@@ -613,7 +644,11 @@ def apply_op(ctx, op):
         fns = {"inc": lambda i, c, p: unbox(p) + 1, "box-inc": lambda i, c, p: Payload(unbox(p) + 1),
                "elem-op": lambda i, c, p: p + CoordPayload(c, 1),
                "zero": lambda i, c, p: Payload(d), "same": lambda i, c, p: p}
-        f.updatePayloads(fns[fn], depth=dd)
+        rid = _target_rankid(ctx, f, lvl, dd) if op.get("by_rankid") else None
+        if rid is not None:
+            f.updatePayloads(fns[fn], rankid=rid)
+        else:
+            f.updatePayloads(fns[fn], depth=dd)
         return
     if kind == "clear":
         if op.get("leaf_only") and not leaf:
